@@ -299,7 +299,7 @@ func c10Run(c c10Case, res *WRes) {
 		return
 	}
 	if succeeded && !ok && !skipOK {
-		viol(fmt.Sprintf("C10/processed-without-valid-authentication/%s/reg=%s/transport=%s/secret=%s", c.Endpoint, c.Reg, c.Transport, c.Secret),
+		viol(fmt.Sprintf("C10/processed-without-valid-authentication/%s/reg=%s", c.Endpoint, c.Reg),
 			fmt.Sprintf("%s processed a request in the name of client registration %q although the presentation (%s, secret %s) does not authenticate it", c.Endpoint, c.Reg, c.Transport, c.Secret), "invalid_client / invalid_request", o.JSON)
 		return
 	}
